@@ -24,7 +24,7 @@ CLAIMS = {
              ' The expansion is matched by every step, not only the first one of a solver object (R13.4).',
         note="Partial: the Taylor comparison is decided for scalar SDEs; multi-dimensional non-commutative terms are covered only by the structural rules. " + TRUSTED),
     "C03": dict(
-        technique="ast formula canonicalisation: Chen identities of the split and of the aggregation loop",
+        technique="ast formula canonicalisation (Chen identities of the split and of the aggregation loop); small-model replay of the real tree by abstract interpretation (exact rational times, symbolic noise)",
         text="Polynomial identities extracted from the source: children of a split sum to the parent (W additivity, "
              "Chen for H) in both arms; the multi-piece aggregation updates of W, H, A are Chen's relation; update "
              "order (H and A use the loop-carried W); antisymmetry of A; H->U with the query length; zero-length arm "
@@ -34,7 +34,7 @@ CLAIMS = {
         note="Partial: values after arbitrary histories rely on C05's structural rules; floating-point tolerance not "
              "decided. " + TRUSTED),
     "C04": dict(
-        technique="ast formula canonicalisation with Gaussian bookkeeping (exact covariance of the split)",
+        technique="ast formula canonicalisation with Gaussian bookkeeping (exact covariance of the split); small-model replay with exact covariances against the definition of Brownian motion",
         text="Exact covariance matrix of (W_L,H_L,W_R,H_R) computed from the extracted coefficients equals "
              "diag(l, l/12, r, r/12) identically in l, r; top-level scalings; seed separation of the noises; Davie / "
              "Foster conditional mean and residual variance equal the prescribed formulas; noise at full shape. Split covariance also in dyadic mode with a rounded midpoint; aggregated Levy area has regression slope 1; quantisation grid no coarser than tol; 64-bit seeds. The generator that consumes a node seed uses all 64 bits of it (torch's CPU generator keeps 32; modelling fact)."
@@ -43,7 +43,7 @@ CLAIMS = {
         note="Partial: the joint law over arbitrary interval sets follows from the split law by the Levy construction "
              "argument, which is on paper. " + TRUSTED),
     "C05": dict(
-        technique="effect analysis: write-once slots, leaf-only splitting, purity, seeded RNG, no aliasing mutation",
+        technique="effect analysis: write-once slots, leaf-only splitting, purity, seeded RNG, no aliasing mutation; small-model replay of query histories by abstract interpretation",
         text="For every path of the Brownian package: node slots are written only by construction/split; only leaves "
              "are split; value functions read only write-once slots, parameters and the memo cache; every RNG call is "
              "seeded from a slot; no in-place operation on a tensor that may alias the cache; cache keyed by node "
@@ -53,7 +53,7 @@ CLAIMS = {
         note="Assumes (read, not decided) that the interval decomposition does not depend on the search start. "
              + TRUSTED),
     "C06": dict(
-        technique="explicit-flow taint (seed provenance, dyadic non-interference), quantisation typestate",
+        technique="explicit-flow taint (seed provenance, dyadic non-interference), quantisation typestate; small-model replay (two objects, two processes, dyadic order independence)",
         text="Seeds are functions of (entropy, tree position, pool size) only; in dyadic mode the requested point has "
              "no explicit flow into the split point; every stored/compared time is quantised; history-dependent "
              "refinement is disabled in dyadic mode; BrownianTree forwards entropy/tol/pool_size/halfway_tree. Seeds at the point of use are the same whichever sibling's noise is requested first (SeedSequence.spawn modelled as stateful)."
@@ -61,7 +61,7 @@ CLAIMS = {
              " Through BrownianTree's own constructor the probes' values do not depend on the history (R06.11).",
         note="Partial: 'different entropies give different paths' is statistical and not decided. " + TRUSTED),
     "C07": dict(
-        technique="call-graph acyclicity, must-write typestate, interval analysis, small-model path enumeration",
+        technique="call-graph acyclicity, must-write typestate, interval analysis, small-model path enumeration and replay",
         text="Bounded stack for every query history (acyclic stack-edge call graph with trampolined edges excluded), "
              "no AttributeError from split-only slots (typestate), strictly positive refinement bound (interval "
              "analysis), cache never above cache_size (path enumeration over a small model), sub-tolerance queries "
